@@ -77,7 +77,8 @@ def install_recentre_monitor(ctx, current_case):
             # express the float32 exp/log round-trip error as an equivalent error on xi (<= 2e-4, measured <= 1e-5)
             bumped = state.clone(disable_auto_fork=True)
             bumped["xi"] = bumped["xi"] + 1e-2
-            sens = {n: (v - before[n]).abs() / 1e-2 for n, v in _snapshot(bumped).items() if n in before and v.shape == before[n].shape}
+            bumped_vals = _snapshot(bumped)
+            sens = {n: (v - before[n]).abs() / 1e-2 for n, v in bumped_vals.items() if n in before and v.shape == before[n].shape}
             _orig(kls, state)
             after = _snapshot(state)
             case = dict(current_case)
@@ -103,9 +104,20 @@ def install_recentre_monitor(ctx, current_case):
                 scale = float(torch.clamp(b[fin].abs().max(), max=1e6)) if bool(fin.any()) else 0.0
                 tol = (1e-5 if n in ("model",) else 1e-5 + 1e-5 * torch.maximum(a.abs(), b.abs())[fin] + 2e-6 * scale) + 2e-4 * sn
                 d = (a - b).abs()[fin]
+                # an entry whose value with xi shifted by 1e-2 is not even finite (overflowing power of an extremely peaked event law) has a
+                # sensitivity that cannot be measured: the float32 rounding of the compensation, amplified by it, is not a gauge defect
+                raw = sens.get(n)
+                if raw is not None and raw.shape == b.shape:
+                    unmeasurable = ~torch.isfinite(raw)[fin]
+                    if bool(unmeasurable.any()):
+                        ctx.count("gauge_entries_not_judged_unmeasurable_sensitivity", int(unmeasurable.sum()))
+                        d = torch.where(unmeasurable, torch.zeros_like(d), d)
                 if d.numel() and bool((d > tol).any()):
                     ctx.violation("recentre/not-a-gauge-change", f"re-centring changed '{n}' (max abs change {float(d.max()):.3g}, |mean xi| was {float(xi0.mean().abs()):.3g})",
-                                  case, before=b.flatten()[:6].tolist(), after=a.flatten()[:6].tolist())
+                                  case, before=b.flatten()[:6].tolist(), after=a.flatten()[:6].tolist(),
+                                  tolerance=(tol.flatten()[:6].tolist() if hasattr(tol, "flatten") else tol),
+                                  sensitivity=(sn.flatten()[:6].tolist() if hasattr(sn, "flatten") else sn),
+                                  with_xi_bumped=(bumped_vals[n].flatten()[:6].tolist() if n in bumped_vals else None))
                 if not torch.equal(torch.isfinite(b), torch.isfinite(a)):
                     ctx.violation("recentre/not-a-gauge-change", f"re-centring changed finiteness of '{n}'", case)
             if float(xi0.mean().abs()) > 1e-3:
